@@ -96,7 +96,7 @@ pub fn bitstring(unused: u8, b: &[u8]) -> Vec<u8> {
 pub fn oid(arcs: &[u64]) -> Vec<u8> {
     let mut c = Vec::new();
     let first = arcs[0] * 40 + arcs[1];
-    let mut push = |mut v: u64, c: &mut Vec<u8>| {
+    let push = |mut v: u64, c: &mut Vec<u8>| {
         let mut tmp = vec![(v & 0x7f) as u8];
         v >>= 7;
         while v > 0 { tmp.push(0x80 | (v & 0x7f) as u8); v >>= 7; }
